@@ -24,8 +24,25 @@ transition, all interleavings, all `n ≥ 1`.
   the state is `Spawned`, `parked_workers = 0`, no goal is current.
 * `gc_after_fork` — the state after `respawn` is a reachable state of the same system, so every
   theorem of C14/C15 applies to the GCs that follow.
-"Exactly once under fairness" (each worker *does* exit) is liveness and is not proved; the proved
-part is named `exit_once` (at most once) — see the hang oracle of the check for the other half.
+* **liveness** (`Lemmas/SchedLive.lean`: `FairRun` = weak fairness of every worker's loop actions `take`,
+  `look`, `miss`, `park`, `wake`, `surrender`, `finish`):
+  - `workers_exit_after_goal` — once an exit goal is current and the surrender pool is prepared (`ExitPhase`:
+    every worker is `woken`, `exited` or `surrendered`, which is the state right after the last parker started
+    the goal), under `FairRun` alone (any environment actions, any spurious wake-ups) the run reaches a state in
+    which all `n` workers are `surrendered`; each worker goes `woken → exited → surrendered`.
+  - `workers_exit_under_fairness` — from the *request*: if `Shutdown` / `StopForFork` is requested, no goal is
+    current, every worker thread exists, `prepare_surrender_buffer` has been called and no Gc request is
+    pending or arrives, then under `FairRun` + `FiniteSpawn` + `FiniteEnv` + `NoAssert` (the hypotheses of C14)
+    the exit goal becomes current and later all `n` workers are `surrendered`.  Together with `exit_once` /
+    `surrender_once`: every worker exits exactly once and surrenders exactly once.
+  - `exit_hypotheses_satisfiable` — a concrete fair run satisfying every hypothesis (kernel-evaluated).
+  Not proved (stated precisely): the case in which a Gc goal is current or a Gc request is pending when the
+  exit request arrives.  `Gc` has priority; `gc_completes_under_fairness` (C14) shows that GC completes, and
+  the completing `on_last_parked` either starts the exit goal itself or (concurrent work scheduled) wakes the
+  workers with no goal current, after which `workers_exit_under_fairness` applies to the suffix of the run —
+  the missing link is the lemma "the state after the completing `park` satisfies the start hypotheses again"
+  (`reqGc = false` there is immediate from the assertion in `on_last_parked`; preservation of the exit request
+  through `respond` is not written down).
 -/
 namespace Mmtk.Sched
 
@@ -456,7 +473,7 @@ theorem onLastParked_starts_exit {c : Cfg} {s : State} {tag : Nat} (hcur : s.cur
       rcases hreq with h | h
       · exact absurd h h1
       · exact h
-    simp only [h1, h2, if_true, if_false]
+    simp only [h1, h2, if_true]
     exact ⟨_, .stopForFork, rfl, rfl, rfl, rfl, rfl, rfl⟩
 
 /-- **C16 (liveness)** after a `Shutdown` / `StopForFork` request every worker exits and surrenders.
